@@ -54,6 +54,26 @@ CHECKS = {
    "Every source of the C02 spaces that the real parser accepts (all symbol strings of the tier's alphabets/bounds; derivation sets D0-D3 and the word menu in one-line, tight and multi-line layouts, each also with multi-byte words) is walked with a typed position checker: every documented position field must spell its token in the source, Pos() <= End(), both inside the source, non-empty nodes have non-zero End(), children inside parents, siblings increasing, adjacent word parts touch, and for words without substitutions source[Pos:End) equals the printed node.",
    "Intrinsic to (source, AST); aliases and line continuations are excluded by the property; containment is not demanded for nodes that carry a here-document; Comment.End excluded.",
    "DESIGN.md §6 C04"),
+ "C07": ("model_checking",
+   "explicit-state search over command streams (state = reader offset, transition = one ParseCommands call)",
+   "Every stream that concatenates ≤ 3 (quick) / 4 (thorough) commands from a 60-entry menu (single-line, multi-line compound, here-documents in every position incl. <<- and quoted delimiters, trailing comments, line continuations, blank lines, multi-line quotes/substitutions), each also with the last command lacking its final newline, is read by successive ParseCommands calls from a strings.Reader and a custom RuneScanner; after every call the offset must be the (constructed) end of that command and the result must equal the result of parsing that command's text alone; blank lines give empty results.",
+   "Command boundaries are known by construction; comment-only lines are excluded (pinned by go.sh's own tests); streams beyond the menu are not explored.",
+   "DESIGN.md §6 C07, §2 E3"),
+ "C09": ("model_checking",
+   "bounded-exhaustive enumeration of sentences × token boundaries × layout changes with a metamorphic oracle",
+   "Every accepted sentence among all strings of ≤ 3 (quick) / 4 (thorough) symbols over a 44-symbol alphabet and the derivation sets D0, D1 and the word menu (thorough: D2) is varied at every token boundary, including the boundaries inside '2>' and '<<E': two blanks, tab, no blank where the tokens stay the same, backslash-newline in three forms, leading/trailing blank, comment before a newline or at end of input, newline for ';' and extra newline where the grammar model admits them. Every single application must parse to the same program and return the inserted comment exactly once, in order.",
+   "The untransformed parse is the oracle; the grammar model only decides where a change is admissible; pairs of changes are not explored.",
+   "DESIGN.md §6 C09"),
+ "C10": ("fault_enumeration",
+   "complete enumeration of single read-fault positions over a bounded-exhaustive sentence set",
+   "For every accepted sentence among all strings of ≤ 3 (quick) / 4 (thorough) symbols over a 43-symbol alphabet and the derivation sets D0, D1, word menu (thorough: D2) in two layouts, the source reader is made to fail from every rune index k in [0, len], both as io.RuneScanner and as io.Reader; if the fault was delivered (or k lies inside the consumed text) the error must satisfy errors.Is(err, sentinel), and a nil error is only allowed with the fault-free result.",
+   "For io.Reader delivery to the parser is hidden behind bufio, so the rule is phrased on k versus the fault-free consumption; multiple faults are not explored.",
+   "DESIGN.md §6 C10, §2 E4"),
+ "C17": ("model_checking",
+   "bounded-exhaustive enumeration of alias tables × symbol strings against a reference replacement",
+   "Every alias table with ≤ 2 entries (thorough: ≤ 3) over 3 names and a 14-value menu (chains, cycles, self reference, trailing blanks, operators, reserved words, assignments, redirections, quoted names) plus 8 fixed three-entry chains × every string of ≤ 3 (thorough: ≤ 4) symbols over a 13-symbol alphabet: the reference model performs the textual replacement on the symbol string (command-name positions from the grammar model, recursion guard, trailing-blank rule, cross-checked against bash and dash), the unfolded text is parsed by the real parser without aliases and must give the same position-free AST; every run terminates.",
+   "Only the substitution is modelled, the unfolded text goes through the real parser; alias values with newlines are covered for termination only (C01).",
+   "DESIGN.md §6 C17"),
  "C01": ("model_checking",
    "bounded-exhaustive enumeration of sources × source kinds × alias tables × GODEBUG settings in crash-isolated worker processes",
    "Every symbol string of the tier's alphabets/bounds and every character string of ≤ 5 (quick) / 6 (thorough) characters over the 14 significant shell characters is parsed by ParseCommands and ParseCommand from a string, a []byte, a one-byte io.Reader, a bufio.Reader and a custom RuneScanner, the shorter ones also under 7 adversarial alias tables, all under GODEBUG=panicnil=0 and =1 (≈ 5·10^7 calls in the quick tier). Each case runs in a GOMAXPROCS=1 worker subprocess that announces the case first, so a crash from a background goroutine, the runtime's deadlock abort or a stalled worker is attributed to it; the result must be commands and/or an error.",
